@@ -99,7 +99,7 @@ def run_jobs(jobs, repo, seed, workers=8, timeout=600):
                 json.dump(dict(job=job, repo=repo, seed=seed * 1000 + k, work=d), f)
             env = dict(os.environ, VERIF_REPO=repo, WANDB_MODE="offline", WANDB_SILENT="true", WANDB_DIR=d,
                        WANDB_CACHE_DIR=os.path.join(d, "wc"), WANDB_CONFIG_DIR=os.path.join(d, "wcfg"),
-                       WANDB_DATA_DIR=os.path.join(d, "wd"), VERIF_TORCH_THREADS="1", PYTHONHASHSEED="0", HOME=d)
+                       WANDB_DATA_DIR=os.path.join(d, "wd"), TMPDIR=d, VERIF_TORCH_THREADS="1", PYTHONHASHSEED="0", HOME=d)
             try:
                 p = subprocess.run([sys.executable, os.path.join(ROOT, "harness", "trainrun_worker.py"), jf, of], env=env,
                                    stdout=subprocess.PIPE, stderr=subprocess.STDOUT, text=True, timeout=timeout, cwd=d)
